@@ -107,6 +107,9 @@ type vConn struct {
 	stall       bool // when the input is used up the client goes silent (Read blocks) instead of closing
 	doneCh      chan struct{} // native runs only: closed by the first Close
 	onWriteFailure func()     // called when the first Write fails
+	// onIdle, if set, runs once when a Read finds that the client has sent
+	// everything it had to send (the connection is idle, waiting for a message)
+	onIdle     func()
 	trackDepth bool  // record the library's call-stack depth at every Read
 	depths     []int
 	// silent != "": the client has sent everything it will send and now waits
@@ -138,6 +141,11 @@ func (c *vConn) Read(p []byte) (int, error) {
 	if c.closed > 0 {
 		c.readsAfterClose++
 		return 0, net.ErrClosed
+	}
+	if c.onIdle != nil && len(p) > 0 && len(c.in.data) == c.in.pos {
+		f := c.onIdle
+		c.onIdle = nil
+		f()
 	}
 	if c.stall && len(p) > 0 && len(c.in.data) == c.in.pos {
 		vStall()
